@@ -65,6 +65,7 @@ THEOREMS = [
     "AiuVerif.C01.mapAll_spec",
     "AiuVerif.C01.tidmap_pass",
     "AiuVerif.C01.tidmap_lanes",
+    "AiuVerif.C01.tidmap_lanes_pidtid",
     "AiuVerif.C01.tidmap_total",
     "AiuVerif.C01.registered_tid_ctx_ok",
     "AiuVerif.C01.registered_tid_ctx_inv",
